@@ -349,7 +349,8 @@ func (r *Runner) sketchCoherence(e *skEntry, count, sum float64, empty bool, mn 
 	if sameSign && (e.storeKind == "dense" || e.storeKind == "sparse" || e.storeKind == "pag") {
 		es, _ := exactSum.Float64()
 		// the zero bucket contributes 0 instead of its sub-minimum values: allow their mass
-		if math.Abs(sum-es) > (alpha*(1+delta)+8*delta)*math.Abs(es)+1e-300 {
+		// near the top of the float range the approximate sum overflows although the true one does not
+		if math.Abs(es)*(1+alpha) < 1e307 && !math.IsInf(sum, 0) && math.Abs(sum-es) > (alpha*(1+delta)+8*delta)*math.Abs(es)+1e-300 {
 			r.oracleFail("sum-accuracy", fmt.Sprintf("sum %v, true sum %v, alpha %v", sum, es, alpha))
 		}
 	}
